@@ -1,6 +1,9 @@
 package rules
 
 import (
+	"strings"
+	"fmt"
+	"go/token"
 	"go/types"
 
 	"golang.org/x/tools/go/ssa"
@@ -108,5 +111,105 @@ func OnlyRule(obs []report.Obligation, rules ...string) []report.Obligation {
 			}
 		}
 	}
+	return out
+}
+
+// INPUTS: a load does not write what the caller handed in, so the same ConfigDetails can be loaded again, or by
+// several goroutines at once.
+//   INPUTS-env   no map update / delete on the map held by ConfigDetails.Environment anywhere in package loader;
+//   INPUTS-cfg   the pre-parsed tree ConfigFile.Config is only handed to the key-conversion function, and that
+//                function returns a new tree: it writes nothing through its argument and its result shares no map
+//                or slice with it (ownership analysis), so the in-place pipeline works on a copy.
+func (c *Ctx) INPUTS(rule string) []report.Obligation {
+	var out []report.Obligation
+	isField := func(v ssa.Value, owner, field string) bool {
+		ld, ok := v.(*ssa.UnOp)
+		if !ok || ld.Op != token.MUL {
+			return false
+		}
+		fa, ok := ld.X.(*ssa.FieldAddr)
+		return ok && fieldName(fa) == field && fieldOwner(fa) == owner
+	}
+	nEnv, nCfg := 0, 0
+	var conv *ssa.Function
+	for _, fn := range c.P.Funcs {
+		if !strings.HasPrefix(c.P.FuncID(fn), "loader.") {
+			continue
+		}
+		for _, b := range fn.Blocks {
+			for _, in := range b.Instrs {
+				switch x := in.(type) {
+				case *ssa.MapUpdate:
+					if isField(x.Map, "ConfigDetails", "Environment") {
+						nEnv++
+						out = append(out, bad(rule+"-env", c.P.FuncID(fn)+" :: writes the caller's ConfigDetails.Environment", c.P.InstrPos(x),
+							"the environment map handed in by the caller is written: the caller sees the change, a second load with the same ConfigDetails starts from it, and two concurrent loads sharing the map race"))
+					}
+				case ssa.CallInstruction:
+					com := x.Common()
+					if bi, ok := com.Value.(*ssa.Builtin); ok && bi.Name() == "delete" && isField(com.Args[0], "ConfigDetails", "Environment") {
+						nEnv++
+						out = append(out, bad(rule+"-env", c.P.FuncID(fn)+" :: deletes from the caller's ConfigDetails.Environment", c.P.InstrPos(in), "the environment map handed in by the caller is written"))
+					}
+				}
+				// uses of ConfigFile.Config
+				if v, ok := in.(ssa.Value); ok && isField(v, "ConfigFile", "Config") {
+					for _, r := range *v.Referrers() {
+						switch u := r.(type) {
+						case *ssa.BinOp, *ssa.DebugRef:
+						case *ssa.MakeInterface:
+							for _, rr := range *u.Referrers() {
+								nCfg++
+								call, isCall := rr.(*ssa.Call)
+								good := isCall && call.Call.StaticCallee() != nil && c.P.InModule(call.Call.StaticCallee())
+								if good {
+									conv = call.Call.StaticCallee()
+								}
+								// a closure call forwarding it (processRawYaml(file.Config)) is followed one level
+								if isCall && call.Call.StaticCallee() == nil {
+									if mc, isMC := call.Call.Value.(*ssa.MakeClosure); isMC {
+										cl := mc.Fn.(*ssa.Function)
+										if len(cl.Params) > 0 {
+											good = true
+											for _, pr := range *cl.Params[0].Referrers() {
+												if cc, ok := pr.(*ssa.Call); ok && cc.Call.StaticCallee() != nil && c.P.InModule(cc.Call.StaticCallee()) {
+													conv = cc.Call.StaticCallee()
+												} else if _, isDbg := pr.(*ssa.DebugRef); !isDbg {
+													good = false
+												}
+											}
+										}
+									}
+								}
+								out = append(out, verdict(good, rule+"-cfg", c.P.FuncID(fn)+" :: pre-parsed Config handed to the converting copy only", c.P.InstrPos(rr.(ssa.Instruction)),
+									"the caller's tree is only passed to the key-conversion function", "the caller's pre-parsed tree is used directly by the in-place pipeline"))
+							}
+						default:
+							nCfg++
+							out = append(out, bad(rule+"-cfg", c.P.FuncID(fn)+" :: pre-parsed Config used as "+c.P.KeyTerm(r.(ssa.Value), 1), c.P.InstrPos(r), "the caller's pre-parsed tree is used directly"))
+						}
+					}
+				}
+			}
+		}
+	}
+	if conv != nil {
+		r := c.imm().analyse(conv, 0, true)
+		c.imm().solve()
+		r = c.imm().analyse(conv, 0, true)
+		fresh := len(r.RetOwned) == 0 && len(r.Events) == 0
+		why := "its result shares no map or slice with its argument and it writes nothing through it (ownership analysis)"
+		if !fresh {
+			why = "it returns (part of) its argument or writes through it"
+			if len(r.Events) > 0 {
+				why += ": " + r.Events[0].Kind + " at " + c.P.InstrPos(r.Events[0].Instr)
+			}
+		}
+		out = append(out, verdict(fresh, rule+"-cfg", c.P.FuncID(conv)+" :: returns a new tree", c.P.Pos(conv.Pos()), why,
+			why+": the pipeline (extends, canonical form, defaults, implicit names) then rewrites the caller's pre-parsed Config in place"))
+	} else {
+		out = append(out, bad(rule+"-cfg", "ConfigFile.Config :: converting copy", "", "no use of ConfigFile.Config found that hands it to a converting function: the rule sees nothing"))
+	}
+	out = append(out, report.Obligation{Rule: rule, Key: "inventory", Status: report.Discharged, Why: fmt.Sprintf("%d writes of ConfigDetails.Environment, %d uses of ConfigFile.Config in package loader", nEnv, nCfg)})
 	return out
 }
